@@ -652,6 +652,13 @@ func classify(d XDialect) []string {
 		}
 		if cnt > 1 {
 			set["enum-extended-by-includer"] = true
+			for _, f2 := range d.Files {
+				for _, e2 := range f2.Enums {
+					if len(e2.Entries) == 0 {
+						set["enum-announced-without-entries-by-an-included-file"] = true
+					}
+				}
+			}
 		}
 		_ = entries
 	}
@@ -681,7 +688,7 @@ func snakeInvertible(name string) bool {
 
 func TestC18Generator(t *testing.T) {
 	rec := evid.New(t, "C18", "XML documents printed from a random dialect model (messages with ids up to 2^24-1, scalar/array/char[n]/scalar char/uint8_t_mavlink_version/enum-typed fields, extension marker at every position, non-snake-case field names, ordinary and bitmask enums with decimal/0x/0b/a**b values, include graphs with diamonds and enums extended by the includer, <version> present/absent) are converted by the real conversion.Convert, compiled with go build, and a probe linked against the generated packages dumps ids, CRC_EXTRA, sizes, per-field one-hot encodings, constants and enum text behaviour; all compared with expectations derived from the model; generating twice must give identical trees (the first conversion runs with the local time zone at UTC-12, the second at UTC+14 - another calendar day at any hour - and the command-line tool at UTC+14 as well); definitions with an unknown field type, a malformed enum value or message name must be refused; non-trivial = document with an extension block, an include, a mavname-requiring field or a non-decimal enum value; distinct by hash of the XML")
-	rec.Require("extension", "include", "mavname-field", "non-decimal-enum-value", "leading-zero-decimal", "negative-refused", "bitmask-enum", "enum-field", "scalar-char", "enum-extended-by-includer", "cli-binary-compared", "ordinary-enum-with-power-of-two-values", "bitmask-enum-with-multi-bit-entry", "enum-field-of-a-rarely-supported-integer-type", "array-of-128-or-more-elements", "comment-holding-markup-before-the-extensions-marker")
+	rec.Require("extension", "include", "mavname-field", "non-decimal-enum-value", "leading-zero-decimal", "negative-refused", "bitmask-enum", "enum-field", "scalar-char", "enum-extended-by-includer", "cli-binary-compared", "ordinary-enum-with-power-of-two-values", "bitmask-enum-with-multi-bit-entry", "enum-field-of-a-rarely-supported-integer-type", "array-of-128-or-more-elements", "comment-holding-markup-before-the-extensions-marker", "enum-announced-without-entries-by-an-included-file", "neg-duplicate-message-id")
 	root := scratch(t)
 	defer os.RemoveAll(root)
 	// the command-line tool built from the same tree: its output must equal the in-process conversion
@@ -723,6 +730,12 @@ func TestC18Generator(t *testing.T) {
 			var xmlAll []byte
 			for _, f := range d.Files {
 				xmlAll = append(xmlAll, f.XML()...)
+			}
+			if negative && strings.HasPrefix(d.Negative, "duplicate-message-id") && err == nil {
+				// the generator can write both Go types; the dialect that lists them must then refuse to initialize
+				batch = append(batch, d)
+				pkgDirs = append(pkgDirs, sub)
+				continue
 			}
 			if negative {
 				if err == nil {
@@ -815,6 +828,13 @@ func TestC18Generator(t *testing.T) {
 			t.Fatalf("BROKEN: batch fails but every member builds alone: %v\n%s", err, out)
 		}
 		for i, d := range batch {
+			if strings.HasPrefix(d.Negative, "duplicate-message-id") {
+				if res[i].InitErr == "" {
+					fail(d, "two different messages of the include tree have id %s: the conversion reported nothing and the generated dialect initializes (%d messages listed) - one of them went missing without a word", strings.TrimPrefix(d.Negative, "duplicate-message-id:"), len(res[i].Msgs))
+				}
+				rec.Case(true, evid.HashS(d.Files[0].XML(), "dup"), "negative-refused", "neg-duplicate-message-id")
+				continue
+			}
 			if err := compare(d, res[i]); err != nil {
 				fail(d, "%v", err)
 			}
